@@ -2,7 +2,7 @@
 import random
 
 from .. import taps
-from ..direct import DirectRun, SimStub, gen_deep_cancel_history, gen_history
+from ..direct import DirectRun, SimStub, gen_churn_history, gen_deep_cancel_history, gen_history
 from ..lifecycle import C04Monitor
 from ..runnerdrive import gen_accounting_case, run_runner_case
 
@@ -45,6 +45,10 @@ def gen_case(rng, tier, idx):
         return gen_accounting_case(rng, tier, hostile=rng.choice(["resubmit", "spoof", "foreign_cancel"]))
     if r == 19:
         return {"drive": "misuse", "seed": rng.randrange(1 << 30)}
+    if r == 10:
+        c = gen_churn_history(rng, tier)
+        c["drive"] = "direct"
+        return c
     if r == 11:
         c = gen_deep_cancel_history(rng, tier)
         c["drive"] = "direct"
